@@ -156,6 +156,22 @@ def extra(report, env):
         l1, l2 = run(seq)
         if l1 != l2 and len(fails) < 5:
             fails.append({'ops': [list(map(str, o)) for o in seq], 'seq': repr(seq), 'detail': 'emitter log %r, reference model %r' % (l1, l2)})
+    # events of one name never reach listeners of another - whatever the names look like
+    odd_names = ['*', '', 'all', 'A', 'a', 'a ', 'a.b', 'a*', '__all__', 'error', 'None', 'callFunction', 'newListener', 'é']
+    em = Emitter()
+    seen = []
+    for nm in odd_names:
+        em.on(nm, lambda *a, _n=nm: seen.append(_n))
+        em.once(nm, lambda *a, _n=nm: seen.append(_n + ' (once)'))
+    for nm in odd_names:
+        del seen[:]
+        em.emit(nm, 1)
+        em.emit(nm, 2)
+        cases += 1
+        want = [nm, nm + ' (once)', nm]
+        if seen != want and len(fails) < 5:
+            fails.append({'ops': ['on/once under %r' % odd_names, 'emit %r twice' % nm], 'seq': 'names', 'name': nm,
+                          'detail': 'listeners called: %r, expected only those of %r: %r' % (seen, nm, want)})
     # bound contexts
     em = Emitter()
     got = []
@@ -175,6 +191,18 @@ def replay(rp):
     if rp.get('seq') == 'ctx':
         print(rp['detail'])
         return 1
+    if rp.get('seq') == 'names':
+        odd_names = ['*', '', 'all', 'A', 'a', 'a ', 'a.b', 'a*', '__all__', 'error', 'None', 'callFunction', 'newListener', 'é']
+        em = Emitter()
+        seen = []
+        for nm in odd_names:
+            em.on(nm, lambda *a, _n=nm: seen.append(_n))
+            em.once(nm, lambda *a, _n=nm: seen.append(_n + ' (once)'))
+        em.emit(rp['name'], 1)
+        em.emit(rp['name'], 2)
+        want = [rp['name'], rp['name'] + ' (once)', rp['name']]
+        print('emit %r twice: listeners called %r, expected %r' % (rp['name'], seen, want))
+        return 1 if seen != want else 0
     seq = eval(rp['seq'])
     l1, l2 = [], []
     scenario(Emitter(), seq, l1)
